@@ -29,7 +29,7 @@ ASSUMPTIONS = ["anchor = last node iff tagged scaffold '<' steps outnumber '>' s
 
 
 def plan(tier):
-    return {"cases": 640 if tier == "quick" else 5000, "shards": 16,
+    return {"cases": 640 if tier == "quick" else 15000, "shards": 16,
             "shard_budget_s": 300 if tier == "quick" else 3300}
 
 
@@ -42,8 +42,29 @@ def setup(ctx):
     SC.install_sort_contracts()
 
 
-def run_sort(w, gaf, out):
+def run_sort(w, gaf, out, rng=None):
+    """the order must not depend on how the output is delivered: file, --bgzip, stdout, --outind"""
     SC.reset_seen()
+    how = rng.choice(["plain", "plain", "bgzip", "stdout", "outind"]) if rng is not None else "plain"
+    M.hit("output_mode:" + how)
+    if how == "stdout":
+        o = run_cli(["sort", gaf, w.gfa])
+        if o.ok:
+            with open(out, "w") as f:
+                f.write(o.stdout)
+        return o
+    if how == "bgzip":
+        import gzip
+        o = run_cli(["sort", gaf, w.gfa, "--outgaf", out + ".gz", "--bgzip"])
+        if os.path.exists(out + ".gz"):
+            try:
+                with gzip.open(out + ".gz", "rt") as f, open(out, "w") as g:
+                    g.write(f.read())
+            except (OSError, EOFError):
+                pass
+        return o
+    if how == "outind":
+        return run_cli(["sort", gaf, w.gfa, "--outind", out + ".myindex", "--outgaf", out])
     return run_cli(["sort", gaf, w.gfa, "--outgaf", out])
 
 
@@ -84,7 +105,7 @@ def run_case(ctx, rng, index, casedir):
             gaf = os.path.join(casedir, f"perm{p}.gaf" + ("" if w.mode == "plain" else ".gz"))
             ggaf.write_gaf(gaf, [w.lines[i] for i in order], mode=w.mode, rng=rng, layout=w.layout)
         out = os.path.join(casedir, f"sorted{p}.gaf")
-        o = run_sort(w, gaf, out)
+        o = run_sort(w, gaf, out, rng)
         M.hit("permutation_runs")
         outcomes[o.kind] += 1
         if not o.ok and not os.path.exists(out):
